@@ -120,10 +120,10 @@ def index(ctx: Any) -> List[Ob]:
         me = f.params[0] if f.params else 'self'
         fcfg = cfg_of(f.node)
         for n in fcfg.nodes:
-            for c in n.calls():
-                if call_name(c) not in ('remove', 'pop') or not isinstance(c.func, ast.Attribute):
-                    continue
-                base = c.func.value
+            cands: List[Tuple[ast.AST, ast.AST]] = [(c, c.func.value) for c in n.calls() if call_name(c) in ('remove', 'pop', 'discard') and isinstance(c.func, ast.Attribute)]
+            if n.kind == 'stmt' and isinstance(n.ast, ast.Delete):
+                cands += [(t, t.value) for t in n.ast.targets if isinstance(t, ast.Subscript)]  # `del bucket[name]`: a bucket that is a mapping
+            for c, base in cands:
                 if isinstance(base, ast.Name):
                     base = _local_def(f, base.id) or base
                 if isinstance(base, ast.Call) and isinstance(base.func, ast.Attribute) and base.func.attr == 'get' and base.args:
@@ -173,6 +173,66 @@ def index(ctx: Any) -> List[Ob]:
                 obs.append(ob(R, f, c, f'after the last entry of a bucket of {sorted(idxs)} is removed the bucket is deleted (keys are enumerated by: {readers})', not bad and bool(oc), 'an empty bucket is left behind' if bad else ''))
     if n_sites == 0:
         raise AnalysisError('anchor vanished: no removal from an index bucket found in the registry')
+    # one registration per name: when the index buckets hold the service OBJECTS (not names that are resolved through the
+    # service table), every writer of the service table must write both indexes on the same path -- else a replaced
+    # registration lives on in the buckets and type / host questions are answered from it
+    def bucket_stores(f: FuncInfo) -> List[Tuple[str, ast.AST, Any]]:
+        me_ = f.params[0] if f.params else 'self'
+        out_ = []
+        for st in walk_local_ordered(f.node):
+            if isinstance(st, ast.Assign) and isinstance(st.targets[0], ast.Subscript):
+                base = st.targets[0].value
+                if isinstance(base, ast.Name):
+                    base = _local_def(f, base.id) or base
+                root = base
+                while isinstance(root, (ast.Subscript, ast.Call)):
+                    root = root.value if isinstance(root, ast.Subscript) else (root.func.value if isinstance(root.func, ast.Attribute) else root.func)
+                    if isinstance(root, ast.Attribute) and self_attr(root, me_) in ('types', 'servers'):
+                        break
+                if isinstance(root, ast.Attribute) and self_attr(root, me_) in ('types', 'servers') and root is not st.targets[0].value:
+                    out_.append((self_attr(root, me_), st.value, st))
+            if isinstance(st, ast.Call) and call_name(st) in ('append', 'add') and isinstance(st.func, ast.Attribute) and st.args:
+                base = st.func.value
+                if isinstance(base, ast.Name):
+                    base = _local_def(f, base.id) or base
+                for x in ast.walk(base):
+                    if isinstance(x, ast.Attribute) and self_attr(x, me_) in ('types', 'servers'):
+                        out_.append((self_attr(x, me_), st.args[0], st))
+                        break
+        return out_
+
+    holds_objects = []
+    for f in reg.methods.values():
+        for idx, val, st in bucket_stores(f):
+            if isinstance(val, ast.Name) and val.id in f.params[1:]:
+                holds_objects.append((f, idx, st))
+    writers = [(f, st) for f in reg.methods.values() for st in walk_local_ordered(f.node) if isinstance(st, ast.Assign) and isinstance(st.targets[0], ast.Subscript) and self_attr(st.targets[0].value, f.params[0] if f.params else 'self') == '_services']
+    if not writers:
+        raise AnalysisError('anchor vanished: no store into the service table of the registry')
+    if not holds_objects:
+        obs.append(ob(R, add, 'self.types / self.servers buckets', 'the index buckets hold service NAMES that are resolved through the service table, so a name has one registration whichever index finds it', True))
+    else:
+        full_writers = {f.name for f in reg.methods.values() if {i for i, _, _ in bucket_stores(f)} >= {'types', 'servers'}}
+        for f, st in writers:
+            me_ = f.params[0]
+            fcfg = cfg_of(f.node)
+
+            def eff_w(node: Any, evl: Any, f: FuncInfo = f, st: ast.AST = st, me_: str = me_) -> List[Any]:
+                out_ = []
+                if node.kind == 'stmt' and node.ast is st:
+                    out_.append('TABLE')
+                if node.kind == 'stmt':
+                    for i, _, s2 in bucket_stores(f):
+                        if any(s2 is y for y in ast.walk(node.ast)):
+                            out_.append('IDX:' + i)
+                for c in node.calls():
+                    if call_name(c) in full_writers and isinstance(c.func, ast.Attribute) and self_attr(c.func, me_):
+                        out_ += ['IDX:types', 'IDX:servers']
+                return out_
+
+            oc, _ = fd.run_paths(prog, f.module, fcfg, {}, eff_w, loop_bound=1)
+            bad = [t for t in oc if 'TABLE' in t and not {'IDX:types', 'IDX:servers'} <= set(t)]
+            obs.append(ob(R, f, st, 'the index buckets hold service objects, so every path that stores a registration in the service table also stores it in the type and the host index (else the replaced object stays in the buckets and answers type / host questions)', not bad and bool(oc), f'a path stores into the table only: {sorted(set(map(strip_ret, bad)))[:2]}' if bad else ''))
     return obs
 
 
@@ -813,6 +873,11 @@ def offered(ctx: Any) -> List[Ob]:
     oc, und = traces(ctx, u, {}, _bucket_eff(me), loop_bound=1, for_iter=lambda n, e: True)
     got = {frozenset(strip_ret(t)) for t in oc}
     obs.append(ob(R, u, 'answer set for a unicast source', 'the records are filed in the unicast bucket', bool(got) and all('UCAST' in x for x in got)))
+    # a record filed for delayed multicast is offered only if the queue it waits in is flushed: the flush timer of the outgoing
+    # queues stays alive (no cancellation that leaves groups behind) -- shared with C12.WIRING
+    from .c12 import flush_timer_cancel_obligations
+
+    obs.extend(flush_timer_cancel_obligations(ctx, R))
     return obs
 
 
